@@ -24,6 +24,7 @@ def run(prog, rep, tier='quick'):
     rep.rule('validation', 'constant-argument contexts on both sides of each documented bound')
     rep.rule('selection', 'aic_eigen / mdl_eigen called iff NSIG is None and threshold is None, and matching `criteria`')
     rep.rule('singular-values', 'returned S is svd(FB)[1]; FB has shape (2*NP, P)')
+    rep.rule('data-matrix', 'FB[i,k] = x[i-k+P-1] (i<NP), conj(x[i-NP+k+1]) (NP<=i<2NP), as an affine block map')
     rep.rule('accumulation', 'loop range(NSIG, P); V[:, I] and S[I] use the loop index; PSD = 1/PSD once')
     f = prog.func('eigenfre', 'eigen')
     where = loc(f.mod, f.node)
@@ -117,6 +118,42 @@ def run(prog, rep, tier='quick'):
         rep.violation('accumulation', f.qname, 'noise-subspace loop', '; '.join(bad), where)
     else:
         rep.proved('accumulation', f.qname, 'noise-subspace loop', 'I = NSIG..P-1; V[:, I], S[I]', where)
+    # data matrix: which sample sits where (affine block maps)
+    from .. import segmap as S
+    for cplx in (False, True):
+        x = C.data(cplx, phase=False)
+        x.seg = S.identity('X', x.shape[0])
+        Pv = C.symint('P', 3, 'order')
+        v, itp = C.run_function(prog, 'eigenfre', 'eigen', [x, Pv], {'NSIG': C.symint('NSIG', 1), 'NFFT': nf()})
+        ctx = 'complex' if cplx else 'real'
+        sv = [e for e in itp.events if e[0] == 'svd']
+        if len(sv) != 1:
+            rep.undecided('data-matrix', f.qname, ctx, 'svd call not found', where)
+            continue
+        A = sv[0][2]
+        if A.amap == 'bad':
+            rep.violation('data-matrix', f.qname, ctx, 'the forward-backward matrix is assembled from pieces that are not one '
+                          'affine arrangement of the data (e.g. a Toeplitz/Hankel block whose first column and last row are not a '
+                          'contiguous run of samples)', where)
+            continue
+        if not A.amap or A.shape is None or A.shape[0] is None:
+            rep.undecided('data-matrix', f.qname, ctx, 'arrangement of the data matrix not derivable', where)
+            continue
+        NP = A.shape[0].scale(F(1, 2))
+        syms = set(A.shape[0].t) | set(Pv.a.t)
+        blocks = [b for b in A.amap if all(set(aff(z).t) <= syms for z in (b[0], b[1], b[6]))]
+        want = {(repr(Aff(0)), repr(NP), '1', '-1', repr(Pv.a - 1), False),
+                (repr(NP), repr(NP.scale(2)), '1', '1', repr(Aff(1) - NP), True)}
+        got = {(repr(b[0]), repr(b[1]), str(b[4]), str(b[5]), repr(b[6]), bool(b[8]) if cplx else (bool(b[8]) if False else (b[1] == NP.scale(2)))) for b in blocks}
+        if not cplx:
+            # for real data conjugation is the identity: ignore the flag
+            want = {w[:5] for w in want}
+            got = {g[:5] for g in got}
+        if got == want:
+            rep.proved('data-matrix', f.qname, ctx, 'rows 0..NP-1: x[i-k+P-1]; rows NP..2NP-1: conj x[(i-NP)+k+1]', where)
+        else:
+            rep.violation('data-matrix', f.qname, ctx, 'forward-backward data matrix holds %s; required forward rows x[i-k+P-1] and '
+                          'conjugated backward rows x[(i-NP)+k+1]' % sorted(got), where)
     seen = set()
     for method, d in (('music', 0), ('ev', 1)):
         v, itp = C.run_function(prog, 'eigenfre', 'eigen', [X(), C.symint('P', 3, 'order')], {'NSIG': C.symint('NSIG', 1), 'method': Const(method), 'NFFT': nf()})
